@@ -170,3 +170,12 @@ def run(ctx, model):
             ctx.violation("R-DATE-SELECT", f_init.relpath, f_init.short, "format validation",
                           "an undocumented format must raise InvalidArgumentValueException", f_init.node.lineno, inp=inp,
                           detail=f"{k} {getattr(t, 'name', '')}")
+
+    # ---------------- R-E2E: the text emitted by the real core builders denotes the composed term
+    from . import e2e
+    cfgs = [("Date", [["dd/mm/yyyy"]]), ("Date", ["d-m-yy"]), ("Date", [["mm/dd/yyyy", "yyyy-m-d", "d/m/yy"], True]), ("Date", [["yy/mm/dd", "dd-mm-yyyy", "yy/mm/d"]])]
+    if ctx.tier == "thorough":
+        cfgs += [("Date", []), ("Date", [None, True])]
+    ctx.parallel(cfgs, lambda c, cfg: e2e.compare(c, model, "R-E2E", *cfg), min_items=2)
+    ctx.floor("R-E2E", ctx.rule_counts.get("R-E2E", 0), len(cfgs), "end-to-end comparisons")
+
